@@ -7,7 +7,8 @@ Inductive dop := DIns (k : bytes) | DDel (k : bytes).
 Inductive sop :=
 | SPut (name : runes) (stack : bytes) (c : N) (t : N)   (* Put(ParseKey(name), tree {stack: c}) over [t, t+10), t unix seconds *)
 | SDelete (name : runes)                                (* Delete(ParseKey(name)) *)
-| SRetain (threshold : N).                              (* DeleteDataBefore(time.Unix(threshold, 0)): a retention pass *)
+| SRetain (threshold : N)                               (* DeleteDataBefore(time.Unix(threshold, 0)): a retention pass *)
+| SRestart.                                             (* graceful restart: Close, New on the same directory *)
 
 Inductive case :=
 (* dimension level: per dimension the Insert/Delete calls, then VerifKeys; for several argument orders
@@ -22,7 +23,8 @@ Inductive case :=
          (values : list (bytes * list bytes))
          (dims : list (bytes * list bytes))
          (hkeys : list bytes)                       (* GET /labels through the server mux, JSON-decoded *)
-         (hvalues : list (bytes * list bytes)).     (* GET /label-values?label=k *)
+         (hvalues : list (bytes * list bytes))      (* GET /label-values?label=k *)
+         (hide : list bytes).                       (* config HideApplications *)
 
 Definition beq (a b : bytes) : bool := list_eqb N.eqb a b.
 Definition bl_eqb (a b : list bytes) : bool := list_eqb beq a b.
@@ -94,6 +96,7 @@ Definition trans_step (acc : list iop * ups_t) (o : sop) : list iop * ups_t :=
                  ((fst acc ++ [IDelete Q])%list, filter (fun x => negb (sub_labels Q (fst x))) (snd acc))
   | SRetain T => let ex := expired_series T (snd acc) in
                  ((fst acc ++ map IDrop ex)%list, filter (fun x => negb (existsb (labels_eqb (fst x)) ex)) (snd acc))
+  | SRestart => acc                (* nothing observable may change *)
   end.
 Definition to_iops (l : list sop) : list iop := fst (fold_left trans_step l ([], [])).
 
@@ -108,9 +111,24 @@ Fixpoint assoc (k : bytes) (l : list (bytes * list bytes)) : option (list bytes)
   | (k', v) :: l' => if beq k k' then Some v else assoc k l'
   end.
 
-(* every ingested pair is listed verbatim *)
-Definition pair_listed (keys : list bytes) (values : list (bytes * list bytes)) (kv : runes * runes) : bool :=
-  memb (fst kv) keys && match assoc (fst kv) values with Some vs => memb (snd kv) vs | None => false end.
+(* every ingested pair is listed verbatim; the application name of a hidden application (config
+   HideApplications) is exempt: it must be absent from the application listing *)
+Definition pair_listed (hide keys : list bytes) (values : list (bytes * list bytes)) (kv : runes * runes) : bool :=
+  memb (fst kv) keys &&
+  (beq (fst kv) name_key && memb (snd kv) hide
+   || match assoc (fst kv) values with Some vs => memb (snd kv) vs | None => false end).
+
+(* the application listing: every application with data that is not hidden, and no hidden one *)
+Definition apps_listed_ok (hide : list bytes) (values : list (bytes * list bytes)) (apps : list bytes) : bool :=
+  match assoc name_key values with
+  | Some vs => forallb (fun a => if memb a hide then negb (memb a vs) else memb a vs) apps
+               && forallb (fun v => negb (memb v hide)) vs
+  | None => false
+  end.
+
+(* Storage.GetValues: for key __name__ the hidden applications are skipped *)
+Definition visible (hide : list bytes) (k : bytes) (vs : list bytes) : list bytes :=
+  if beq k name_key then filter (fun v => negb (memb v hide)) vs else vs.
 
 Definition puts_of (ops : list iop) : list labels :=
   flat_map (fun o => match o with IPut K _ _ => [K] | _ => [] end) ops.
@@ -131,7 +149,7 @@ Definition check_case (c : case) : verdict :=
         [ spec (list_eqb bl_eqb keys sets) "a dimension is not the sorted set of the keys inserted and not deleted";
           corr (list_eqb bl_eqb mdims keys) "d_insert/d_delete model differs from Dimension.Insert/Delete" ]
         ++ flat_map (check_order sets mdims) orders)
-  | CStore sops gets keys values dims hkeys hvalues =>
+  | CStore sops gets keys values dims hkeys hvalues hide =>
       let ops := to_iops sops in
       let st := ix_run ops in
       let sig := tag_name_colon ops in
@@ -142,21 +160,17 @@ Definition check_case (c : case) : verdict :=
               "Get does not aggregate exactly the live series whose tags include the selector's pairs, each once";
             corr (match ix_get Q st with Some p => pr_eqb p (snd g) | None => false end)
               "index model lookup differs from Storage.Get" ]) gets
-        ++ [ spec (forallb (fun K => forallb (fun kv => has c_colon (fst kv) || pair_listed keys values kv) K) (puts_of ops))
+        ++ [ spec (forallb (fun K => forallb (fun kv => has c_colon (fst kv) || pair_listed hide keys values kv) K) (puts_of ops))
                "an ingested tag name or value is not listed verbatim by GetKeys/GetValues";
-             spec (forallb (fun K => match assoc name_key values with
-                                     | Some vs => memb (app_name K) vs
-                                     | None => false end) (live ops))
-               "an application with data is missing from GetValues(__name__)";
-             spec (forallb (fun K => forallb (fun kv => has c_colon (fst kv) || pair_listed hkeys hvalues kv) K) (puts_of ops))
+             spec (apps_listed_ok hide values (map app_name (live ops)))
+               "GetValues(__name__) is not the applications with data minus exactly the hidden ones";
+             spec (forallb (fun K => forallb (fun kv => has c_colon (fst kv) || pair_listed hide hkeys hvalues kv) K) (puts_of ops))
                "an ingested tag name or value is not listed verbatim by GET /labels, /label-values";
-             spec (forallb (fun K => match assoc name_key hvalues with
-                                     | Some vs => memb (app_name K) vs
-                                     | None => false end) (live ops))
-               "an application with data is missing from GET /label-values?label=__name__";
+             spec (apps_listed_ok hide hvalues (map app_name (live ops)))
+               "GET /label-values?label=__name__ is not the applications with data minus exactly the hidden ones";
              corr (set_eqb (get_keys (ix_labels st)) keys) "labels model: get_keys differs from GetKeys";
              corr (set_eqb (get_keys (ix_labels st)) hkeys) "labels model: get_keys differs from GET /labels" ]
-        ++ map (fun kv => corr (set_eqb (get_values (fst kv) (ix_labels st)) (snd kv)) "labels model: get_values differs from GetValues") values
-        ++ map (fun kv => corr (set_eqb (get_values (fst kv) (ix_labels st)) (snd kv)) "labels model: get_values differs from GET /label-values") hvalues
+        ++ map (fun kv => corr (set_eqb (visible hide (fst kv) (get_values (fst kv) (ix_labels st))) (snd kv)) "labels model: get_values differs from GetValues") values
+        ++ map (fun kv => corr (set_eqb (visible hide (fst kv) (get_values (fst kv) (ix_labels st))) (snd kv)) "labels model: get_values differs from GET /label-values") hvalues
         ++ map (fun nd => corr (bl_eqb (dm_get (fst nd) (ix_dims st)) (snd nd)) "index model: a dimension differs from the stored one") dims)
   end.
